@@ -12,12 +12,14 @@ PROGRAMS = [("Sim1", "default", 500, 8, 100000, 8), ("Sim2", "default", 250, 3, 
 TSAN_CFLAGS = ["-O1", "-g", "-fsanitize=thread", "-fno-omit-frame-pointer"]
 HARNESS_CFLAGS = ["-O1", "-g", "-fno-omit-frame-pointer"]
 WRAPS = ["malloc", "calloc", "realloc", "free", "random", "__assert_fail", "memcpy", "memmove", "memset", "memcmp", "bcmp", "memchr", "strlen",
-         "strtod", "qsort", "gmtime_r", "localtime_r", "mktime", "timegm", "vsnprintf", "snprintf", "pthread_mutex_lock", "pthread_mutex_unlock"]
+         "strtod", "qsort", "gmtime_r", "localtime_r", "mktime", "timegm", "vsnprintf", "snprintf", "pthread_mutex_lock", "pthread_mutex_unlock",
+         "gmtime", "localtime", "asctime", "ctime", "strtok", "rand"]    # non-reentrant: modelled as writes to hidden static state
 # libc symbols the instrumented runtime may import; anything else makes the build fail loudly (DESIGN 5.6)
 KNOWN_IMPORTS = set("""bcmp calloc fflush fprintf fputc free fwrite gmtime_r ilogb ldexp localtime_r malloc memchr memcmp memcpy memmove memset mktime
  qsort random realloc snprintf strerror strlen strtod timegm vfprintf vsnprintf __assert_fail __errno_location stdout stderr strcmp strncmp strchr
  sprintf abort getenv strtol strtoul memcpy __stack_chk_fail strcpy strncpy strcasecmp tolower toupper isalnum __ctype_b_loc modf frexp pow floor ceil
- fabs log10 copysign finite isnan isinf __isnan __isinf __finite scalbn lrint rint strtoimax strtoumax""".split())
+ fabs log10 copysign finite isnan isinf __isnan __isinf __finite scalbn lrint rint strtoimax strtoumax
+ gmtime localtime asctime ctime strtok rand""".split())
 
 
 def build_programs(wdir, progs):
